@@ -63,6 +63,9 @@ def rules(rep, m):
                 if cls == "cmb_resource":
                     want = "((%s->holder != NULL) ? 1 : 0)" % O
                     got = a[1].replace("1.0", "1").replace("0.0", "0")
+                    if got in ("((%s->holder == NULL) ? 0 : 1)" % O, "(!(%s->holder == NULL) ? 1 : 0)" % O,
+                               "(!(%s->holder != NULL) ? 0 : 1)" % O, "(%s->holder != NULL)" % O, "!(%s->holder == NULL)" % O):
+                        got = want          # the same function of the holder, spelled from the other side
                     if got != want:
                         # the same function of the holder spelled with if / else on a local (possibly an inlined helper's
                         # result): every value it is given is 1 under 'holder != NULL' and 0 under 'holder == NULL'
